@@ -428,6 +428,7 @@ pub fn run(tier: Tier, totals: &mut Totals) {
     padded_names(totals);
     look_alike_names(totals);
     word_values(totals);
+    output_is_an_input(totals);
 }
 
 /// Names that are prefixes of one another: every subset of nine look-alike names defined, then one
@@ -685,6 +686,37 @@ fn padded_names(totals: &mut Totals) {
     }
 }
 
+/// The output variable of a line is a variable like any other while the command runs: a command whose
+/// output goes into the very variable it reads (by name, or as one of all names) sees that variable as it
+/// was before the line, and the output replaces it afterwards - at the top level, inside a function, under
+/// a prefixed name, between a push and a pop that copy it.
+fn output_is_an_input(totals: &mut Totals) {
+    for name in ["x", "p::x"] {
+        for place in ["top", "function"] {
+            let body = format!(
+                "{n} = set old\n{n} = get_by_name {n}\nr1 = set ${{{n}}}\n{n} = is_defined {n}\nr2 = set ${{{n}}}\n{n} = set old\n{n} = set_by_name {n} new\nr3 = set ${{{n}}}\n{n} = set a\n{n} = set ${{{n}}}b\nr4 = set ${{{n}}}\nunset_all_vars --prefix zz\nnames = get_all_var_names\nn1 = array_length ${{names}}\nnames = get_all_var_names\nn2 = array_length ${{names}}\ngrew = calc ${{n2}} - ${{n1}}\n{n} = set old\nscope_push_stack --copy {n}\n{n} = set new\n{n} = get_by_name {n}\nscope_pop_stack --copy {n}\nr5 = set ${{{n}}}\n{n} = set kept\n{n} = get_by_name nothing_here\nr6 = is_defined {n}",
+                n = name
+            );
+            let text = if place == "top" { body } else { format!("fn work\n{}\nend\nwork", body) };
+            crate::util::scale_case_totals(
+                totals,
+                &format!("output-is-an-input name {} at {}", name, place),
+                &text,
+                &[
+                    ("r1", Some("old".into())),
+                    ("r2", Some("true".into())),
+                    ("r3", Some("new".into())),
+                    ("r4", Some("ab".into())),
+                    // between the two listings exactly two variables appeared: names and n1
+                    ("grew", Some("2".into())),
+                    ("r5", Some("new".into())),
+                    ("r6", Some("false".into())),
+                ],
+            );
+        }
+    }
+}
+
 /// Depth and size far beyond the search bound: a scope stack hundreds of maps deep and a map with
 /// hundreds of variables, as scripts whose results are computed here.
 fn scale(tier: Tier, totals: &mut Totals) {
@@ -816,7 +848,7 @@ pub fn replay(case: &Value) -> Result<String, String> {
     Err("history uses operations outside the alphabet".into())
 }
 
-pub const RULE: &str = "explicit-state breadth-first search from the empty context: every operation of the alphabet (set via a one-line script; set_by_name with/without value, get_by_name, is_defined, unset with 1-2 names, get_all_var_names, unset_all_vars plain and --prefix, clear_scope, scope_push_stack / scope_pop_stack without --copy and with every --copy list of 0..2 names) is applied to every reachable state; pushes are disabled at the stack-depth bound so the space is finite and searched to a fixpoint. Each transition runs the real command, compares its output, the complete variable map, the saved maps inside the scope stack and the handle table with the model (map + stack of maps). States are de-duplicated on the implementation's own state (variables and the whole state map). evaluations = transitions; distinct_nontrivial = distinct states. Prefix family: every subset of nine look-alike names {p::a, p::b::c, p2::a, pp::a, p, px, q::p::a, p:a, P::a} x clear_scope p / p2 / q / p::b and unset_all_vars --prefix p / p:: / p2 / q::p: exactly the names the operation speaks of are removed. Scale cases (scripts, results computed in Rust): a scope stack 10/70/300 (thorough 1000, 3000) levels deep pushed and popped with --copy, a pop on the emptied stack; 10..300 variables written and read by name and removed by prefix Prefix family: 12 look-alike names (incl. p::::a, p::, ' p::a') x 18 operations (clear_scope and unset_all_vars --prefix with names ending in the separator, with blanks, in another case): exactly the names starting with NAME:: (the prefix) are removed. Padded names: 9 names with white space around them through set_by_name / get_by_name / is_defined / unset: another name than without. Look-alike names: 7 groups of names that differ only in letter case, dotted / dotless i, composed / decomposed form, sharp s, a ligature, the Kelvin sign, a look-alike colon - all defined at once: each keeps its value, the list of names has all, unsetting one leaves the others Word values: 55 values that read like words of the language (or, and, not, block keywords, the false words), numbers, handles, scopes, options, labels, blanks, through set_by_name / get_by_name / is_defined / scope_push_stack --copy / scope_pop_stack --copy / a second set_by_name, under a plain and a prefixed name.";
+pub const RULE: &str = "explicit-state breadth-first search from the empty context: every operation of the alphabet (set via a one-line script; set_by_name with/without value, get_by_name, is_defined, unset with 1-2 names, get_all_var_names, unset_all_vars plain and --prefix, clear_scope, scope_push_stack / scope_pop_stack without --copy and with every --copy list of 0..2 names) is applied to every reachable state; pushes are disabled at the stack-depth bound so the space is finite and searched to a fixpoint. Each transition runs the real command, compares its output, the complete variable map, the saved maps inside the scope stack and the handle table with the model (map + stack of maps). States are de-duplicated on the implementation's own state (variables and the whole state map). evaluations = transitions; distinct_nontrivial = distinct states. Prefix family: every subset of nine look-alike names {p::a, p::b::c, p2::a, pp::a, p, px, q::p::a, p:a, P::a} x clear_scope p / p2 / q / p::b and unset_all_vars --prefix p / p:: / p2 / q::p: exactly the names the operation speaks of are removed. Scale cases (scripts, results computed in Rust): a scope stack 10/70/300 (thorough 1000, 3000) levels deep pushed and popped with --copy, a pop on the emptied stack; 10..300 variables written and read by name and removed by prefix Prefix family: 12 look-alike names (incl. p::::a, p::, ' p::a') x 18 operations (clear_scope and unset_all_vars --prefix with names ending in the separator, with blanks, in another case): exactly the names starting with NAME:: (the prefix) are removed. Padded names: 9 names with white space around them through set_by_name / get_by_name / is_defined / unset: another name than without. Look-alike names: 7 groups of names that differ only in letter case, dotted / dotless i, composed / decomposed form, sharp s, a ligature, the Kelvin sign, a look-alike colon - all defined at once: each keeps its value, the list of names has all, unsetting one leaves the others Word values: 55 values that read like words of the language (or, and, not, block keywords, the false words), numbers, handles, scopes, options, labels, blanks, through set_by_name / get_by_name / is_defined / scope_push_stack --copy / scope_pop_stack --copy / a second set_by_name, under a plain and a prefixed name. Output is an input: lines whose output variable is the variable the command reads (get_by_name, is_defined, set_by_name, set with a reference to itself, get_all_var_names twice into one variable, get_by_name between a push and a pop that copy the variable, a read of an undefined name into a defined variable), under a plain and a prefixed name, at the top level and inside a function.";
 pub const ASSUMPTIONS: &[&str] = &["names from {a,b,p::a} (thorough also {a,ab,p::a,p}), values from {1, empty, 'x y'}", "for a name that is undefined when copied on pop the model follows the implementation between 'restored' and 'undefined'", "operations other than `name = set value` are run through run_instruction (outputs observed directly, no output variable)"];
 pub const EXHAUSTIVE: bool = true;
 pub const WALL_CAP_S: (u64, u64) = (50, 1500);
